@@ -786,6 +786,8 @@ def rule_python_parameters(ctx, rule='R16.10', only=None):
 
 
 def run(ctx):
+    from . import c12 as _c12
+    _c12.rule_slices(ctx)                 # R12.1: the acc variant of a transformation (used for the variational kick) is the pos variant's map
     from . import c20
     c20.rule_com_variations(ctx)          # R20.7: moving to the centre of mass shifts every variational configuration by the matching derivative
     rule_python_parameters(ctx, 'R16.10', only=('variation.py',))
